@@ -19,7 +19,8 @@ Inductive fspec :=
 | FRest                    (* '*': data[offset:] *)
 | FOpaque.                 (* a named callable outside this model *)
 
-Inductive fval := VInt (v : Z) | VBytes (b : list Z).
+Inductive fval := VInt (v : Z) | VBytes (b : list Z)
+  | VItems (l : list (list Z)).   (* a list built by a class's __post_init__ loop *)
 
 Inductive perr :=
 | EIndex                   (* IndexError *)
@@ -69,7 +70,75 @@ Fixpoint lookup (code : Z) (table : list (Z * list fspec)) : option (list fspec)
 Inductive pdu_res :=
 | PErr (e : perr)                                   (* an exception; nothing is dispatched *)
 | PGeneric (code : Z) (payload : list Z)            (* unregistered code: base-class instance *)
-| PKnown (code : Z) (vals : list fval).             (* registered class with its field values *)
+| PKnown (code : Z) (vals : list fval)              (* registered class with its field values *)
+| POutOfFuel.                                       (* a __post_init__ loop ran out of fuel (excluded by theorem) *)
+
+(* The __post_init__ loops of the four ATT response classes that split a '*' field into
+   items, all of one shape:
+     while offset + guard <= len(data): <struct.unpack_from needs hdr bytes>; item; offset += stride
+   Find Information Response   (5): guard = uuid_size (2 or 16), hdr = 2, stride = 2 + uuid_size
+   Find By Type Value Response (7): guard = hdr = stride = 4
+   Read By Type Response       (9): guard = stride = length (loop skipped when length = 0), hdr = 2
+   Read By Group Type Response (17): same with hdr = 4
+   An item is recorded as the bytes the code reads for it: the hdr header bytes followed by
+   data[off+hdr : off+stride] (empty when stride < hdr), i.e. data[off : off+max(hdr,stride)].
+   The stride comes from the peer, hence explicit fuel; [None] is "out of fuel". *)
+Fixpoint item_loop (fuel : nat) (guard hdr stride : nat) (data : list Z) (off : nat)
+  : option (perr + list (list Z)) :=
+  match fuel with
+  | O => None
+  | S f =>
+      if (off + guard <=? length data)%nat then
+        if (off + hdr <=? length data)%nat then
+          match item_loop f guard hdr stride data (off + stride) with
+          | None => None
+          | Some (inl e) => Some (inl e)
+          | Some (inr items) => Some (inr (slice data off (Nat.max hdr stride) :: items))
+          end
+        else Some (inl EStruct)
+      else Some (inr [])
+  end.
+
+Definition item_fuel (data : list Z) : nat := S (length data).
+
+Definition att_post_classes : list Z := [5; 7; 9; 17].
+
+Definition wrap_items (vals : list fval) (r : option (perr + list (list Z))) : option (perr + list fval) :=
+  match r with
+  | None => None
+  | Some (inl e) => Some (inl e)
+  | Some (inr items) => Some (inr (vals ++ [VItems items]))
+  end.
+
+(* length-driven loop of the Read By [Group] Type responses; skipped when length = 0 *)
+Definition len_items (hdr : nat) (len : Z) (data : list Z) : option (perr + list (list Z)) :=
+  if len =? 0 then Some (inr [])
+  else item_loop (item_fuel data) (Z.to_nat len) hdr (Z.to_nat len) data 0.
+
+Definition att_post (op : Z) (vals : list fval) : option (perr + list fval) :=
+  if op =? 5 then
+    match vals with
+    | [VInt format; VBytes data] =>
+        wrap_items vals (if format =? 1 then item_loop (item_fuel data) 2 2 4 data 0
+                         else item_loop (item_fuel data) 16 2 18 data 0)
+    | _ => Some (inr vals)
+    end
+  else if op =? 7 then
+    match vals with
+    | [VBytes data] => wrap_items vals (item_loop (item_fuel data) 4 4 4 data 0)
+    | _ => Some (inr vals)
+    end
+  else if op =? 9 then
+    match vals with
+    | [VInt len; VBytes data] => wrap_items vals (len_items 2 len data)
+    | _ => Some (inr vals)
+    end
+  else if op =? 17 then
+    match vals with
+    | [VInt len; VBytes data] => wrap_items vals (len_items 4 len data)
+    | _ => Some (inr vals)
+    end
+  else Some (inr vals).
 
 (* att.ATT_PDU.from_bytes *)
 Definition att_from_bytes (table : list (Z * list fspec)) (pdu : list Z) : pdu_res :=
@@ -80,7 +149,12 @@ Definition att_from_bytes (table : list (Z * list fspec)) (pdu : list Z) : pdu_r
       | None => PGeneric op (tl pdu)
       | Some fs => match parse_fields fs pdu 1 with
                    | inl e => PErr e
-                   | inr (vals, _) => PKnown op vals
+                   | inr (vals, _) =>
+                       match att_post op vals with
+                       | None => POutOfFuel
+                       | Some (inl e) => PErr e
+                       | Some (inr vals') => PKnown op vals'
+                       end
                    end
       end
   end.
@@ -174,5 +248,6 @@ Section Signalling.
     | (PErr e, _) => (st, [], SigParseError e)
     | (PGeneric code payload, ident) => dispatch st code ident [VBytes payload]
     | (PKnown code vals, ident) => dispatch st code ident vals
+    | (POutOfFuel, _) => (st, [], SigParseError EOpaque)     (* sig_from_bytes never yields it *)
     end.
 End Signalling.
